@@ -46,7 +46,8 @@ class FIBDemux(Device):
         self.outs = outs
         self.default_out = default_out
         self.packets_recevied = 0
-        if ends:
+        if ends is not None:
+            # an empty map is a valid map: devices may register in it later
             self.ends = ends
         else:
             self.ends = dict()
